@@ -571,7 +571,7 @@ pub async fn run_client() {
     }
     let mon = wire::install(&net, ["client", "peer"], [models(), Models::none()]);
     let mut peer = Peer::new("peer", ps);
-    let peer_open = peer::open("peer", Some(pick(&[65536u32, 512])), Some(255), if heartbeat { Some(pick(&[300u32, 2000])) } else { None });
+    let peer_open = peer::open("peer", Some(pick(&[65536u32, 512])), Some(255), if heartbeat { Some(pick(&[300u32, 2000])) } else if choice(3) == 0 { Some(0) } else { None });
     if choice(12) == 1 {
         // a begin where the peer's open is due: the client must refuse (close with an error), must not
         // act on the begin, and must ignore what follows until the peer's close
@@ -694,7 +694,7 @@ pub async fn run_listener() {
     }
     let mon = wire::install(&net, ["peer", "listener"], [Models::none(), models()]);
     let mut peer = Peer::new("peer", ps);
-    let peer_open = peer::open("peer", Some(pick(&[65536u32, 512])), Some(255), if heartbeat { Some(pick(&[300u32, 2000])) } else { None });
+    let peer_open = peer::open("peer", Some(pick(&[65536u32, 512])), Some(255), if heartbeat { Some(pick(&[300u32, 2000])) } else if choice(3) == 0 { Some(0) } else { None });
     let acceptor = world::listener_acceptor(&lcfg);
     if frames_before_open {
         // a begin before the open: the listener must refuse the connection, not act on the begin
